@@ -1246,6 +1246,205 @@ example : (⟨⟨1, 1048577, #[0, 97, 98, 0]⟩, 1, 2⟩ : Slice).Valid ∧
   refine ⟨by simp [Slice.Valid], by simp [Slice.Valid], by simp [FinderOp.Ok, Slice.Valid],
     by simp⟩
 
+/-! ### iterating to exhaustion (`FindIter.countLoop`, `Finder.countIter`) -/
+
+/-- never more matches than offsets left -/
+theorem greedyFwdFrom_length_le_all (hay x : Array UInt8) : ∀ (fuel pos : Nat),
+    (Spec.greedyFwdFrom hay x pos fuel).length ≤ hay.size + 1 - pos := by
+  intro fuel
+  induction fuel with
+  | zero => intro pos; simp [Spec.greedyFwdFrom]
+  | succ f ih =>
+    intro pos
+    cases hl : Spec.leftmostFrom hay x pos (hay.size + 1 - pos) with
+    | none => rw [greedyFwdFrom_none hl]; simp
+    | some i =>
+      obtain ⟨h1, _, ho, _⟩ := (Spec.leftmostFrom_eq_some_iff _ _ _ _ _).mp hl
+      have hle := ho.le_size
+      rw [greedyFwdFrom_some hl, List.length_cons]
+      have := ih (i + max 1 x.size)
+      omega
+
+/-- the counting loop on a good iterator: with enough fuel it returns `acc` plus the number of
+matches still to come, and the fuel fault is not reached -/
+theorem FindIter.countLoop_ok (cfg : Api.Cfg) {n0 hay : Slice} (hn0 : n0.Valid) (hh : hay.Valid) :
+    ∀ (fuel : Nat) (it : FindIter) (acc g : Nat) (c : Ctr), it.GoodFor n0 hay →
+    (it.finder.searcher.usesTwoWay → TwoWayFwdOk) → hay.toArray.size + 1 - it.pos ≤ g →
+    (Spec.greedyFwdFrom hay.toArray n0.toArray it.pos g).length + 1 ≤ fuel →
+    ∃ c', FindIter.countLoop cfg fuel it acc c =
+      .ok (acc + (Spec.greedyFwdFrom hay.toArray n0.toArray it.pos g).length) c' := by
+  intro fuel
+  induction fuel with
+  | zero => intro it acc g c _ _ _ hf; omega
+  | succ fuel ih =>
+    intro it acc g c hg htw hgf hf
+    obtain ⟨it', c1, h1, g1, f1, p1⟩ := FindIter.next_ok cfg hn0 hh hg htw c
+    simp only [FindIter.countLoop, bind_ok h1]
+    cases hl : Spec.leftmostFrom hay.toArray n0.toArray it.pos (hay.toArray.size + 1 - it.pos) with
+    | none =>
+      rw [greedyFwdFrom_none hl]
+      exact ⟨c1, rfl⟩
+    | some i =>
+      obtain ⟨a1, a2, _, _⟩ := (Spec.leftmostFrom_eq_some_iff _ _ _ _ _).mp hl
+      obtain ⟨g', rfl⟩ : ∃ g', g = g' + 1 := ⟨g - 1, by omega⟩
+      rw [hl] at p1
+      simp only [] at p1
+      rw [greedyFwdFrom_some hl, List.length_cons] at hf ⊢
+      rw [Nat.max_comm] at p1
+      rw [← p1] at hf ⊢
+      obtain ⟨c', h'⟩ := ih it' (acc + 1) g' c1 g1 (by rw [f1]; exact htw) (by omega) (by omega)
+      refine ⟨c', ?_⟩
+      show FindIter.countLoop cfg fuel it' (acc + 1) c1 = _
+      rw [h']; congr 1; omega
+
+/-- **`finder.find_iter(haystack)` run to exhaustion** counts `Spec.greedyFwd` (C08), for a
+finder in any ownership state (C16), without a fault and - the function not taking the heap -
+without allocation (C17). -/
+theorem Finder.countIter_ok (cfg : Api.Cfg) {n0 : Slice} {f : Finder} (hg : f.GoodFor n0)
+    (hn0 : n0.Valid) (htw : f.searcher.usesTwoWay → TwoWayFwdOk) (hay : Slice) (hh : hay.Valid)
+    (c : Ctr) :
+    ∃ c', f.countIter cfg hay c = .ok (Spec.greedyFwd hay.toArray n0.toArray).length c' := by
+  obtain ⟨g, p, _, s⟩ := Finder.findIter_good hg hay
+  have hb := greedyFwdFrom_length_le_all hay.toArray n0.toArray (hay.toArray.size + 1) 0
+  obtain ⟨c', h⟩ := FindIter.countLoop_ok cfg hn0 hh (hay.len + 2) (f.findIter hay) 0
+    (hay.toArray.size + 1) c g (by rw [s]; exact htw) (by omega)
+    (by rw [p]; rw [Slice.toArray_size hh] at hb ⊢; omega)
+  rw [p, Nat.zero_add] at h
+  exact ⟨c', h⟩
+
+/-! #### reverse -/
+
+/-- one reference step, on the list of what is still to come -/
+theorem revRest_step (hay x : Array UInt8) (st : Option Nat) (g : Nat)
+    (hst : ∀ p, st = some p → p ≤ hay.size ∧ p + 1 ≤ g + 1) :
+    (match (refRevStep hay x st).1 with
+      | none => revRest hay x (g + 1) st = []
+      | some i => revRest hay x (g + 1) st = i :: revRest hay x g (refRevStep hay x st).2 ∧
+          ∀ q, (refRevStep hay x st).2 = some q → q ≤ hay.size ∧ q + 1 ≤ g ∧
+            ∀ p, st = some p → q < p) := by
+  cases st with
+  | none => simp [refRevStep, revRest]
+  | some p =>
+    obtain ⟨hp, hf⟩ := hst p rfl
+    simp only [refRevStep, revRest, Spec.greedyRevFrom]
+    by_cases hlt : p < x.size
+    · simp [hlt]
+    · simp only [hlt, if_false]
+      cases hr : Spec.rightmostBelow hay x (p - x.size + 1) with
+      | none => simp
+      | some i =>
+        simp only []
+        obtain ⟨h1, h2, h3⟩ := (Spec.rightmostBelow_eq_some_iff _ _ _ _).mp hr
+        by_cases hx : x.size = 0
+        · have hip : i = p := by
+            by_cases hlt' : i < p
+            · exact absurd ((occAt_empty hx p).mpr hp) (h3 p hlt' (by omega))
+            · omega
+          subst hip
+          simp only [hx, if_true]
+          by_cases h0 : i = 0
+          · simp [h0]
+          · simp only [h0, if_false, true_and]
+            intro q hq; cases hq
+            exact ⟨by omega, by omega, fun p' hp' => by cases hp'; omega⟩
+        · have hfit := h2.1
+          have hne : p ≠ i := by omega
+          simp only [hx, hne, if_false, true_and]
+          intro q hq; cases hq
+          exact ⟨by omega, by omega, fun p' hp' => by cases hp'; omega⟩
+
+theorem revRest_length_le (hay x : Array UInt8) : ∀ (g : Nat) (st : Option Nat),
+    (∀ p, st = some p → p ≤ hay.size ∧ p + 1 ≤ g) →
+    (revRest hay x g st).length ≤ (match st with | none => 0 | some p => p + 1) := by
+  intro g
+  induction g with
+  | zero =>
+    intro st hst
+    cases st with
+    | none => simp [revRest]
+    | some p => have := (hst p rfl).2; omega
+  | succ g ih =>
+    intro st hst
+    have hs := revRest_step hay x st g hst
+    cases hr : (refRevStep hay x st).1 with
+    | none => rw [hr] at hs; simp only [] at hs; rw [hs]; simp
+    | some i =>
+      rw [hr] at hs
+      obtain ⟨e, hq⟩ := hs
+      rw [e, List.length_cons]
+      have := ih _ (fun q h => ⟨(hq q h).1, (hq q h).2.1⟩)
+      cases st with
+      | none => simp [refRevStep] at hr
+      | some p =>
+        cases h2 : (refRevStep hay x (some p)).2 with
+        | none => rw [h2] at this; simp only [] at this ⊢; omega
+        | some q =>
+          rw [h2] at this
+          have hlt := (hq q h2).2.2 p rfl
+          simp only [] at this ⊢
+          omega
+
+theorem FindRevIter.countLoop_ok (cfg : Api.Cfg) {n0 hay : Slice} (hn0 : n0.Valid)
+    (hh : hay.Valid) : ∀ (fuel : Nat) (it : FindRevIter) (acc g : Nat) (c : Ctr),
+    it.GoodFor n0 hay → (it.finder.searcher.usesTwoWay → TwoWayRevOk) →
+    (∀ p, it.pos = some p → p ≤ hay.toArray.size ∧ p + 1 ≤ g) →
+    (revRest hay.toArray n0.toArray g it.pos).length + 1 ≤ fuel →
+    ∃ c', FindRevIter.countLoop cfg fuel it acc c =
+      .ok (acc + (revRest hay.toArray n0.toArray g it.pos).length) c' := by
+  intro fuel
+  induction fuel with
+  | zero => intro it acc g c _ _ _ hf; omega
+  | succ fuel ih =>
+    intro it acc g c hg htw hst hf
+    obtain ⟨it', c1, h1, g1, f1, p1⟩ := FindRevIter.next_ok cfg hn0 hh hg htw c
+    simp only [FindRevIter.countLoop, bind_ok h1]
+    cases g with
+    | zero =>
+      -- only the exhausted state fits fuel 0
+      cases hp : it.pos with
+      | some p => have := (hst p hp).2; omega
+      | none => simp [refRevStep, revRest]
+    | succ g' =>
+      have hs := revRest_step hay.toArray n0.toArray it.pos g' hst
+      cases hr : (refRevStep hay.toArray n0.toArray it.pos).1 with
+      | none =>
+        rw [hr] at hs; simp only [] at hs
+        rw [hs]
+        exact ⟨c1, rfl⟩
+      | some i =>
+        rw [hr] at hs
+        obtain ⟨e, hq⟩ := hs
+        simp only []
+        rw [e, List.length_cons] at hf ⊢
+        rw [← p1] at e hq hf ⊢
+        obtain ⟨c', h'⟩ := ih it' (acc + 1) g' c1 g1 (by rw [f1]; exact htw)
+          (fun q h => ⟨(hq q h).1, (hq q h).2.1⟩) (by omega)
+        refine ⟨c', ?_⟩
+        show FindRevIter.countLoop cfg fuel it' (acc + 1) c1 = _
+        rw [h']; congr 1; omega
+
+/-- **`finder.rfind_iter(haystack)` run to exhaustion** counts `Spec.greedyRev`. -/
+theorem FinderRev.countIter_ok (cfg : Api.Cfg) {n0 : Slice} {f : FinderRev} (hg : f.GoodFor n0)
+    (hn0 : n0.Valid) (htw : f.searcher.usesTwoWay → TwoWayRevOk) (hay : Slice) (hh : hay.Valid)
+    (c : Ctr) :
+    ∃ c', f.countIter cfg hay c = .ok (Spec.greedyRev hay.toArray n0.toArray).length c' := by
+  obtain ⟨g, p, _, s⟩ := FinderRev.rfindIter_good hg hay
+  have hsz := Slice.toArray_size hh
+  have hst : ∀ q, (f.rfindIter hay).pos = some q →
+      q ≤ hay.toArray.size ∧ q + 1 ≤ hay.toArray.size + 1 := by
+    intro q hq; rw [p] at hq; cases hq; omega
+  have hb := revRest_length_le hay.toArray n0.toArray (hay.toArray.size + 1) (f.rfindIter hay).pos hst
+  rw [p] at hb
+  simp only [] at hb
+  obtain ⟨c', h⟩ := FindRevIter.countLoop_ok cfg hn0 hh (hay.len + 2) (f.rfindIter hay) 0
+    (hay.toArray.size + 1) c g (by rw [s]; exact htw) hst (by rw [p]; omega)
+  rw [p, Nat.zero_add] at h
+  have e : Spec.greedyRev hay.toArray n0.toArray =
+      revRest hay.toArray n0.toArray (hay.toArray.size + 1) (some hay.len) := by
+    rw [← hsz]; rfl
+  rw [e]
+  exact ⟨c', h⟩
+
 end Memchr.Memmem
 
 section AxiomCheck
@@ -1278,4 +1477,6 @@ open Memchr.Memmem
 #print axioms C16.find_iter
 #print axioms C16.rfind_iter
 #print axioms C17.finder_no_alloc
+#print axioms Finder.countIter_ok
+#print axioms FinderRev.countIter_ok
 end AxiomCheck
